@@ -43,7 +43,13 @@ def item_trees():
                      st.lists(st.sampled_from(["FRAME", {"gen": ["none"]}, {"gen": ["replace1", "GEN"]},
                                                {"gen": ["insert", "GEN"]}, None]), min_size=0, max_size=3).map(
                          lambda xs: {"u": "tuple", "elems": xs}))
-    return st.recursive(base, node, max_leaves=8)
+    # frameless trees in which several items fail to unwrap (extract records a group; extract_outermost re-raises it)
+    fl_leaf = st.sampled_from(["raise", "raise", "none", "empty"]).map(lambda u: {"u": u, "elems": []})
+    fl_node = st.fixed_dictionaries({"u": st.sampled_from(["tuple", "list", "iter"]),
+                                     "elems": st.lists(st.one_of(fl_leaf, st.none()), min_size=2, max_size=4)})
+    fl_tree = st.fixed_dictionaries({"u": st.sampled_from(["tuple", "list", "iter"]),
+                                     "elems": st.lists(st.one_of(fl_leaf, fl_node), min_size=1, max_size=3)})
+    return st.one_of(st.recursive(base, node, max_leaves=8), st.recursive(base, node, max_leaves=8), fl_node, fl_tree)
 
 
 def number_items(shape):
@@ -111,6 +117,8 @@ def check_items(ws, interps, case, out):
         classes.append("items.suspended_object")
     if info.get("owned_after_redirect"):
         classes.append("items.suspended_object_reached_through_elaborate_frame_redirect")
+    if info.get("outermost_reraised_group"):
+        classes.append("items.no_frames_and_several_unwrap_errors")
     out.note_case(case, (not info.get("frames")) or info.get("error") or info.get("owned_after_redirect"),
                   classes=classes, n_eval=len(interps))
     return viols
